@@ -93,7 +93,7 @@ def validate(ctx, recs, reg_path, label):
                       env={"AUTOSORT_REG": reg_path, "TRACE_FILE": path},
                       workers=1, coverage=False)
     if res.violated or res.error:
-        raise MachineryError("AutosortTrace failed:\n" + res.stdout[-3000:])
+        raise MachineryError("AutosortTrace failed:\n" + vcommon.err_excerpt(res.stdout))
     failed = {}
     casespace = None
     for obj in res.printed():
